@@ -201,7 +201,9 @@ func rtRLWE(c *eng.Ctx, p rlwe.Parameters, pl rlwe.ParametersLiteral, r *eng.Ran
 		c.Violate(sig+"MarshalBinary|error", err.Error(), nil)
 		return
 	}
-	c.Check(len(bin) == p.BinarySize(), sig+"BinarySize|wrong", func() string { return fmt.Sprintf("BinarySize()=%d, MarshalBinary gives %d bytes", p.BinarySize(), len(bin)) })
+	c.Check(len(bin) == p.BinarySize(), sig+"BinarySize|wrong", func() string {
+		return fmt.Sprintf("BinarySize()=%d, MarshalBinary gives %d bytes", p.BinarySize(), len(bin))
+	})
 	var d rlwe.Parameters
 	e = d.UnmarshalBinary(bin)
 	chk("binary", d, e)
